@@ -11,8 +11,16 @@
 
   The theorems are about `MdModel.Index.index` / `MdModel.Reason` — the model the compiled driver
   executes and the `index` engine compares with the real `process_minidump` on every run — for dumps
-  with ANY number of threads, names, modules and any field values. "Processable" = the dump has a
-  thread list (`d.threads = some ts`); `index_total` shows the model then always yields a state.
+  with ANY number of threads, names, modules, memory regions and any field values. "Processable" =
+  the dump has a thread list (`d.threads = some ts`); `index_total` shows the model then never
+  panics and yields a state (or, for a big-endian dump whose walk would read stack memory, says
+  `unmodelled`).
+
+  `index` CALLS the walker model `MdModel.Walk.walk` (C05/C04) on the stack memory it selects with
+  the start context it chooses: `stacks_are_walks` states this for every call stack of the state, so
+  C05's well-formedness (`walk_wf`), C03's frame bound (`walk_bound`) and C05's module cover
+  (`walk_covered`) hold for every stack of the process state (`stacks_wf`, `stacks_frame_bound`,
+  `frame_module_sound`).
 
   Reading of the text (DESIGN.md §6.0): with duplicate thread ids the LAST matching thread is the
   requesting thread and the LAST readable duplicate name wins.
@@ -23,9 +31,63 @@
 import MdProofs.Lemmas.Index
 import MdProofs.Lemmas.IndexReason
 import MdProofs.Lemmas.IndexUnloaded
+import MdProofs.Lemmas.IndexMem
+import MdProofs.C05
 namespace MdModel.Index
 open MdModel
 open MdModel.Reason (Exc Reason Os Cpu)
+open MdModel.Walk (Mem)
+
+/-! ## 0. how a call stack of the state arises from its thread -/
+
+/-- the call stack at position `i` is the attributed, walked stack of thread `i` -/
+theorem stack_at (d : Dump) (ts : List Thread) (s : State)
+    (hth : d.threads = some ts) (h : index d = .state s) :
+    s.stacks.length = ts.length ∧
+    ∀ i (h1 : i < ts.length) (h2 : i < s.stacks.length),
+      attachStack (unloadedModules d) (stackOf d ts[i]) = some s.stacks[i] := by
+  obtain ⟨hatt, -⟩ := index_state_inv d ts s hth h
+  have hlen := optMap_length _ _ _ hatt
+  simp only [List.length_map] at hlen
+  refine ⟨hlen, ?_⟩
+  intro i h1 h2
+  have := optMap_getElem _ _ _ hatt i (by simpa using h1) h2
+  simpa using this
+
+theorem stackOf_id (d : Dump) (t : Thread) : (stackOf d t).id = t.id := by
+  unfold stackOf; split
+  · rfl
+  · split <;> rfl
+
+theorem stackOf_name (d : Dump) (t : Thread) : (stackOf d t).name = nameOf d.names t.id := by
+  unfold stackOf; split
+  · rfl
+  · split <;> rfl
+
+theorem stackOf_frames (d : Dump) (t : Thread) :
+    (stackOf d t).frames =
+      match startCtx d t with
+      | some r => framesOf d (stackMemOf d t) (toCtx d.arch r)
+      | none => [] := by
+  unfold stackOf
+  split
+  · rename_i hd; simp [startCtx, hd]
+  · split
+    · rename_i r hr; simp [hr]
+    · rename_i hr; simp [hr]
+
+theorem stackOf_info (d : Dump) (t : Thread) :
+    (stackOf d t).info =
+      if isDumpThread d t then .dumpThreadSkipped
+      else match startCtx d t with
+        | some _ => .ok
+        | none => .missingContext := by
+  unfold stackOf
+  split
+  · rfl
+  · split
+    · rename_i r hr; simp [hr]
+    · rename_i hr; simp [hr]
 
 /-! ## 1. "exactly one call stack per entry of the thread list, in order, with the same thread
         ids and names" -/
@@ -37,27 +99,11 @@ theorem stacks_match_threads (d : Dump) (ts : List Thread) (s : State)
     s.stacks.length = ts.length ∧
     ∀ i (h1 : i < ts.length) (h2 : i < s.stacks.length),
       s.stacks[i].id = ts[i].id ∧ s.stacks[i].name = nameOf d.names ts[i].id := by
-  obtain ⟨hatt, -⟩ := index_state_inv d ts s hth h
-  have hcore := attach_core _ _ _ _ hatt
-  have hlen : s.stacks.length = ts.length := by
-    have := congrArg List.length hcore
-    simpa using this
+  obtain ⟨hlen, hat⟩ := stack_at d ts s hth h
   refine ⟨hlen, ?_⟩
   intro i h1 h2
-  have hi : (s.stacks.map Stack.core)[i]'(by simpa using h2) =
-      ((ts.map (stackOf d)).map Stack.core)[i]'(by simpa using h1) := by
-    simp only [hcore]
-  simp only [List.getElem_map, Stack.core, Prod.mk.injEq] at hi
-  obtain ⟨hid, hname, -, -⟩ := hi
-  constructor
-  · rw [hid]; unfold stackOf
-    split
-    · rfl
-    · split <;> rfl
-  · rw [hname]; unfold stackOf
-    split
-    · rfl
-    · split <;> rfl
+  obtain ⟨hid, hname, -⟩ := attachStack_core _ _ _ (hat i h1 h2)
+  exact ⟨by rw [hid, stackOf_id], by rw [hname, stackOf_name]⟩
 
 /-- the names stream is an id-keyed map filled in stream order in which unreadable strings are
     skipped: the LAST readable entry for an id wins … -/
@@ -74,10 +120,10 @@ theorem nameOf_none (names : List (Nat × Option String)) (id : Nat)
   rw [nameOf_eq]; exact nameFold_keep id none names h
 
 /-- the dump-writer thread is skipped — no frame, `DumpThreadSkipped` — but keeps its name
-    (processor.rs:1047-1056 after /repo commit 1dec95b) -/
+    (processor.rs:1056-1063 after /repo commit 1dec95b) -/
 theorem dump_thread_skipped (d : Dump) (t : Thread) (h : isDumpThread d t = true) :
     (stackOf d t).name = nameOf d.names t.id ∧ (stackOf d t).info = .dumpThreadSkipped ∧
-    (stackOf d t).frame0 = none := by
+    (stackOf d t).frames = [] := by
   unfold stackOf; rw [if_pos h]; exact ⟨rfl, rfl, rfl⟩
 
 /-! ## 2. "the requesting thread is the non-dump-writer thread named by the exception record,
@@ -150,57 +196,73 @@ theorem requesting_never_dump_thread (d : Dump) (ts : List Thread) (s : State)
 
 /-! ## 3. "whose walk starts from the exception's context when one can be read" -/
 
-/-- **C14.3** the first frame of every call stack: nothing for the skipped dump-writer thread; for
-    the requesting thread(s) the exception's context when it is readable and only otherwise the
-    thread's own context; for every other thread its own context; and `MissingContext` exactly
-    when there is no such context. -/
+/-- which context a thread's walk starts from: none for the skipped dump-writer thread; for the
+    requesting thread(s) the exception's context when it is readable and only otherwise the
+    thread's own; for every other thread its own -/
+theorem start_context_rule (d : Dump) (t : Thread) :
+    (isDumpThread d t = true → startCtx d t = none) ∧
+    (isDumpThread d t = false →
+        (isRequesting d t = true → ∀ r, excCtx d = some r → startCtx d t = some r) ∧
+        (isRequesting d t = true → excCtx d = none → startCtx d t = readCtx d t.ctx) ∧
+        (isRequesting d t = false → startCtx d t = readCtx d t.ctx)) := by
+  refine ⟨fun hd => by simp [startCtx, hd], fun hd => ⟨?_, ?_, ?_⟩⟩
+  · intro hq r hr; simp [startCtx, hd, hq, hr]
+  · intro hq hr; simp [startCtx, hd, hq, hr]
+  · intro hq; simp [startCtx, hd, hq]
+
+/-- **C14.3** the call stack of thread `i`: `DumpThreadSkipped` without frames for the dump-writer
+    thread; `MissingContext` without frames exactly when there is no start context; otherwise `Ok`
+    and the FIRST FRAME IS the start context (`start_context_rule`): trust `context`, all its
+    registers, instruction = its instruction pointer. -/
 theorem context_preference (d : Dump) (ts : List Thread) (s : State)
     (hth : d.threads = some ts) (h : index d = .state s)
     (i : Nat) (h1 : i < ts.length) (h2 : i < s.stacks.length) :
     (isDumpThread d ts[i] = true →
-        s.stacks[i].info = .dumpThreadSkipped ∧ s.stacks[i].frame0 = none) ∧
+        s.stacks[i].info = .dumpThreadSkipped ∧ s.stacks[i].frames = []) ∧
     (isDumpThread d ts[i] = false →
-        (isRequesting d ts[i] = true → ∀ ip, excCtx d = some ip →
-            s.stacks[i].frame0 = some ip ∧ s.stacks[i].info = .ok) ∧
-        (isRequesting d ts[i] = true → excCtx d = none →
-            s.stacks[i].frame0 = readCtx d ts[i].ctx) ∧
-        (isRequesting d ts[i] = false → s.stacks[i].frame0 = readCtx d ts[i].ctx) ∧
-        (s.stacks[i].info = .missingContext ↔ s.stacks[i].frame0 = none) ∧
-        (s.stacks[i].info = .ok ↔ ∃ ip, s.stacks[i].frame0 = some ip)) := by
-  obtain ⟨hatt, -⟩ := index_state_inv d ts s hth h
-  have hcore := attach_core _ _ _ _ hatt
-  have hi : (s.stacks.map Stack.core)[i]'(by simpa using h2) =
-      ((ts.map (stackOf d)).map Stack.core)[i]'(by simpa using h1) := by
-    simp only [hcore]
-  simp only [List.getElem_map, Stack.core, Prod.mk.injEq] at hi
-  obtain ⟨-, -, hinfo, hf0⟩ := hi
-  rw [hinfo, hf0]
+        (s.stacks[i].info = .missingContext ↔ startCtx d ts[i] = none) ∧
+        (s.stacks[i].info = .ok ↔ ∃ r, startCtx d ts[i] = some r) ∧
+        (startCtx d ts[i] = none → s.stacks[i].frames = []) ∧
+        (∀ r, startCtx d ts[i] = some r →
+          ∃ f0 rest, s.stacks[i].frames = f0 :: rest ∧ f0.f.trust = .context ∧
+            f0.f.ctx = toCtx d.arch r ∧ f0.f.instruction = r.ip)) := by
+  obtain ⟨-, hat⟩ := stack_at d ts s hth h
+  obtain ⟨-, -, hinfo, hfr, -⟩ := attachStack_core _ _ _ (hat i h1 h2)
+  rw [stackOf_frames] at hfr
+  rw [hinfo, stackOf_info]
   constructor
   · intro hd
-    exact ⟨(dump_thread_skipped d _ hd).2.1, (dump_thread_skipped d _ hd).2.2⟩
+    have hs : startCtx d ts[i] = none := by simp [startCtx, hd]
+    rw [hs] at hfr
+    simp only [List.map_eq_nil_iff] at hfr
+    exact ⟨by simp [hd], hfr⟩
   · intro hd
-    have hstart : (stackOf d ts[i]).frame0 = startCtx d ts[i] ∧
-        ((stackOf d ts[i]).info = .missingContext ↔ startCtx d ts[i] = none) ∧
-        ((stackOf d ts[i]).info = .ok ↔ ∃ ip, startCtx d ts[i] = some ip) := by
-      unfold stackOf
-      rw [if_neg (by simp [hd])]
-      split
-      · rename_i ip hip; simp [hip]
-      · rename_i hnone; simp [hnone]
-    obtain ⟨hf, hmiss, hok⟩ := hstart
-    refine ⟨?_, ?_, ?_, ?_, ?_⟩
-    · intro hq ip hip
-      have : startCtx d ts[i] = some ip := by simp [startCtx, hd, hq, hip]
-      exact ⟨by rw [hf, this], hok.mpr ⟨ip, this⟩⟩
-    · intro hq hnone
-      rw [hf]; simp [startCtx, hd, hq, hnone]
-    · intro hq
-      rw [hf]; simp [startCtx, hd, hq]
-    · rw [hf]; exact hmiss
-    · rw [hf]; exact hok
+    rw [if_neg (by simp [hd])]
+    refine ⟨?_, ?_, ?_, ?_⟩
+    · cases hs : startCtx d ts[i] <;> simp
+    · cases hs : startCtx d ts[i] <;> simp
+    · intro hs
+      rw [hs] at hfr
+      simpa using hfr
+    · intro r hs
+      rw [hs] at hfr
+      simp only at hfr
+      obtain ⟨g0, grest, hg, htrust, hctx, hin⟩ :=
+        (Walk.walk_wf (envOf d (stackMemOf d ts[i])) (walkMem d.arch (stackMemOf d ts[i])) (toCtx d.arch r)).head
+      unfold framesOf at hfr
+      rw [hg] at hfr
+      cases hfs : s.stacks[i].frames with
+      | nil => rw [hfs] at hfr; simp at hfr
+      | cons f0 rest =>
+        rw [hfs] at hfr
+        simp only [List.map_cons, List.cons.injEq] at hfr
+        refine ⟨f0, rest, rfl, ?_, ?_, ?_⟩
+        · rw [hfr.1]; exact htrust
+        · rw [hfr.1]; exact hctx
+        · rw [hfr.1, hin]; rfl
 
 /-- a context is readable only on an architecture for which `MinidumpContext::read` has a format -/
-theorem readCtx_spec (d : Dump) (c : Option Nat) :
+theorem readCtx_spec (d : Dump) (c : Option Regs) :
     readCtx d c = if Reason.archHasContext d.arch then c else none := rfl
 
 /-! ## 4. "crash address [is] the documented function of the exception record, operating system
@@ -613,6 +675,7 @@ end MdModel.Reason
 namespace MdModel.Index
 open MdModel
 open MdModel.Reason (Exc Reason Os Cpu)
+open MdModel.Walk (Mem)
 
 /-! ## 6. "process id and times are those of the corresponding streams" -/
 
@@ -661,160 +724,479 @@ theorem statusPid_none (kv : List (String × String)) (h : ∀ e ∈ kv, e.1 ≠
 /-! ## 7. "Modules, unloaded modules with per-frame offsets … are those of the corresponding streams" -/
 
 /-- **C14.0** a dump with a thread list is always processed: no panic outcome — neither the
-    `unwrap` inside the loaded-module table (C08 `safe_ok`) nor the checked subtraction
-    `frame.instruction - base_of_image` (every module returned by the lookup covers the address,
-    C08 `unloaded_exact`) can fire. -/
+    `unwrap` inside the loaded-module and memory range tables (C08 `safe_ok`) nor the checked
+    subtraction `frame.instruction - base_of_image` (every module returned by the lookup covers the
+    address, C08 `unloaded_exact`) can fire. The model yields a state, except that it declines
+    (`unmodelled`) a BIG-endian dump in which some walk would read stack memory. -/
 theorem index_total (d : Dump) (ts : List Thread) (hth : d.threads = some ts) :
-    ∃ s, index d = .state s := by
-  obtain ⟨ss, hss⟩ := attach_some_of (loadedModules d) (unloadedModules d) (ts.map (stackOf d))
-    (fun _ _ a _ => frameUnloaded_some _ _ a)
+    (∃ s, index d = .state s) ∨
+    (index d = .unmodelled ∧ d.bigEndian = true ∧ walksMemory d (ts.map (stackOf d)) = true) := by
+  have hatt : ∃ ss, optMap (attachStack (unloadedModules d)) (ts.map (stackOf d)) = some ss := by
+    apply optMap_some_of
+    intro p _
+    obtain ⟨fs, hfs⟩ := optMap_some_of (attachFrame (unloadedModules d)) p.frames
+      (fun f _ => attachFrame_some _ f)
+    exact ⟨{ id := p.id, name := p.name, info := p.info, frames := fs }, by simp [attachStack, hfs]⟩
+  obtain ⟨ss, hss⟩ := hatt
   unfold index
   rw [hth]
-  simp only
-  rw [loop_stacks, hss]
-  exact ⟨_, rfl⟩
+  simp only [tableOk_modEntries, tableOk_memEntries, Bool.and_self, Bool.not_true, Bool.false_eq_true,
+    if_false]
+  rw [loop_stacks]
+  by_cases hbe : (d.bigEndian && walksMemory d (ts.map (stackOf d))) = true
+  · right
+    rw [if_pos hbe]
+    simp only [Bool.and_eq_true] at hbe
+    exact ⟨rfl, hbe.1, hbe.2⟩
+  · left
+    rw [if_neg hbe, hss]
+    exact ⟨_, rfl⟩
+
+/-- a little-endian dump with a thread list always yields a state -/
+theorem index_total_le (d : Dump) (ts : List Thread) (hth : d.threads = some ts)
+    (hle : d.bigEndian = false) : ∃ s, index d = .state s := by
+  rcases index_total d ts hth with h | ⟨-, hbe, -⟩
+  · exact h
+  · rw [hle] at hbe; cases hbe
 
 /-- without a thread list nothing is produced (`ProcessError::MissingThreadList`) -/
 theorem index_no_thread_list (d : Dump) (hth : d.threads = none) : index d = .missingThreadList := by
   unfold index; rw [hth]
 
-theorem stackOf_unloaded (d : Dump) (t : Thread) : (stackOf d t).unloaded = [] := by
-  unfold stackOf; split
-  · rfl
-  · split <;> rfl
-
-/-- **C14.7** per-frame unloaded-module offsets: a context frame inside a loaded module gets none;
-    otherwise it gets `(name, instruction − base)` for exactly the unloaded modules whose range
-    covers the instruction (all of them, possibly several per name), and nothing else. -/
+/-- **C14.7** per-frame unloaded-module offsets, for EVERY frame of every call stack (the context
+    frame and every frame the walk recovered): a frame inside a loaded module gets none; otherwise
+    it gets `(name, instruction − base)` for exactly the unloaded modules whose range covers the
+    instruction (all of them, possibly several per name), and nothing else. -/
 theorem unloaded_offsets (d : Dump) (ts : List Thread) (s : State)
     (hth : d.threads = some ts) (h : index d = .state s)
-    (i : Nat) (h1 : i < ts.length) (h2 : i < s.stacks.length) :
-    (s.stacks[i].frame0 = none → s.stacks[i].unloaded = []) ∧
-    (∀ a, s.stacks[i].frame0 = some a →
-      (inLoadedModule (loadedModules d) a = some true → s.stacks[i].unloaded = []) ∧
-      (inLoadedModule (loadedModules d) a = some false →
-        ∀ name off, (name, off) ∈ s.stacks[i].unloaded ↔
-          ∃ m ∈ unloadedModules d, covers m a = true ∧ name = m.name ∧ off = a - m.base)) := by
-  obtain ⟨hatt, -⟩ := index_state_inv d ts s hth h
-  have hcore := attach_core _ _ _ _ hatt
-  have hi : (s.stacks.map Stack.core)[i]'(by simpa using h2) =
-      ((ts.map (stackOf d)).map Stack.core)[i]'(by simpa using h1) := by
-    simp only [hcore]
-  simp only [List.getElem_map, Stack.core, Prod.mk.injEq] at hi
-  obtain ⟨-, -, -, hf0⟩ := hi
-  have hu := attach_unloaded _ _ _ _ hatt i (by simpa using h1) h2
-  simp only [List.getElem_map] at hu
-  rw [hf0]
-  constructor
-  · intro hnone
-    rw [hnone] at hu
-    simp only at hu
-    rw [hu, stackOf_unloaded]
-  · intro a ha
-    rw [ha] at hu
-    simp only at hu
-    unfold frameUnloaded at hu
-    constructor
-    · intro hin
-      rw [hin] at hu
-      simp only [Option.some.injEq] at hu
-      exact hu.symm
-    · intro hin
-      rw [hin] at hu
-      simp only at hu
-      obtain ⟨l, hl, hspec⟩ := offsetsAt_spec (unloadedModules d) a
-      rw [hl] at hu
-      cases hu
-      exact hspec
-
-/-- the loaded-module test of a frame is C08's sound lookup: a frame is attributed to a loaded
-    module only if some (valid) loaded module's own range contains the instruction -/
-theorem inLoadedModule_sound (ms : List Mod) (a : Nat) (h : inLoadedModule ms a = some true) :
-    ∃ m ∈ ms, covers m a = true := by
-  unfold inLoadedModule at h
-  split at h
-  · rename_i t ht
-    simp only [Option.some.injEq, Option.isSome_iff_exists] at h
-    obtain ⟨v, hv⟩ := h
-    have hwf : RangeMap.InputWF (ms.zipIdx.map fun (m, i) => (RangeMap.mkRange m.base m.size, i)) := by
-      intro e he r hr
-      simp only [List.mem_map] at he
-      obtain ⟨⟨m, i⟩, -, rfl⟩ := he
-      have := RangeMap.mkRange_wf hr
-      exact ⟨this.1, this.2.1⟩
-    rw [RangeMap.safe_ok _ hwf] at ht
-    cases ht
-    obtain ⟨r, hr, hlo, hhi⟩ := RangeMap.get_sound _ a v hv
-    simp only [List.mem_map] at hr
-    obtain ⟨⟨m, i⟩, hmem, heq⟩ := hr
-    simp only [Prod.mk.injEq] at heq
-    have hm : m ∈ ms := List.mem_of_getElem? (List.mem_zipIdx_iff_getElem?.mp hmem)
-    refine ⟨m, hm, ?_⟩
-    unfold covers; rw [heq.1]; simp [RangeMap.Rng.contains, hlo, hhi]
-  · cases h
+    (i : Nat) (h1 : i < ts.length) (h2 : i < s.stacks.length)
+    (j : Nat) (hj : j < s.stacks[i].frames.length) :
+    (∀ k, s.stacks[i].frames[j].f.module = some k → s.stacks[i].frames[j].unloaded = []) ∧
+    (s.stacks[i].frames[j].f.module = none →
+      ∀ name off, (name, off) ∈ s.stacks[i].frames[j].unloaded ↔
+        ∃ m ∈ unloadedModules d, covers m s.stacks[i].frames[j].f.instruction = true ∧
+          name = m.name ∧ off = s.stacks[i].frames[j].f.instruction - m.base) := by
+  obtain ⟨-, hat⟩ := stack_at d ts s hth h
+  obtain ⟨-, -, -, -, hfr⟩ := attachStack_core _ _ _ (hat i h1 h2)
+  have hlen := optMap_length _ _ _ hfr
+  have hx := optMap_getElem _ _ _ hfr j (by omega) hj
+  obtain ⟨hf, hsome, hnone⟩ := attachFrame_spec _ _ _ hx
+  rw [hf]
+  exact ⟨hsome, hnone⟩
 
 /-- **C14.8** the module lists are those of the streams: loaded modules in stream order minus the
-    entries with an impossible size (0, or overflowing the address space); the unloaded-module
-    stream as a whole, or nothing if any of its entries has an impossible size. -/
+    entries with an impossible size (0, or overflowing the address space) — nothing at all if the
+    name of a remaining entry cannot be read; the unloaded-module stream as a whole, or nothing if
+    any of its entries has an impossible size or an unreadable name. -/
 theorem modules_mirror (d : Dump) (ts : List Thread) (s : State)
     (hth : d.threads = some ts) (h : index d = .state s) :
-    s.modules = d.modules.filter (fun m => !badSize m) ∧
-    s.unloaded = (if d.unloaded.any badSize then [] else d.unloaded) := by
-  obtain ⟨-, -, -, -, -, -, hm, hu⟩ := index_state_inv d ts s hth h
+    s.modules = (if (d.modules.filter (fun m => !badSize m)).any (fun m => m.name.isNone) then []
+                 else (d.modules.filter (fun m => !badSize m)).map RawMod.toMod) ∧
+    s.unloaded = (if d.unloaded.any badSize || d.unloaded.any (fun m => m.name.isNone) then []
+                  else d.unloaded.map RawMod.toMod) := by
+  obtain ⟨-, -, -, -, -, -, hm, hu, -⟩ := index_state_inv d ts s hth h
   exact ⟨hm, hu⟩
 
-theorem badSize_iff (m : Mod) : badSize m = true ↔ m.size = 0 ∨ m.base + m.size > U64MAX := by
+theorem badSize_iff (m : RawMod) : badSize m = true ↔ m.size = 0 ∨ m.base + m.size > U64MAX := by
   unfold badSize
   simp only [Bool.or_eq_true, decide_eq_true_eq]
   omega
 
-/-! ## 8. non-vacuity: concrete instances of the hypotheses, evaluated by the kernel -/
+/-- a module of the state keeps base, size and (readable) name of its stream entry -/
+theorem toMod_spec (m : RawMod) (n : String) (h : m.name = some n) : m.toMod = ⟨m.base, m.size, n⟩ := by
+  simp [RawMod.toMod, h]
+
+/-! ## 9. "stack memory chosen to contain the context's stack pointer" (processor.rs:1166-1183) -/
+
+/-- the thread's own stack memory (`thread.stack_memory(memory_list)`): the bytes its stack
+    descriptor cites when that can be read (non-zero rva inside the file, non-zero size) — placed
+    at `stack.start_of_memory_range` —, else the region of the memory list that contains
+    `stack.start_of_memory_range` -/
+theorem own_stack_spec (mem : List Mem) (t : Thread) :
+    (∀ b, t.stack = .bytes b → b.size ≠ 0 → ownStack mem t = some { base := t.stackStart, bytes := b }) ∧
+    (∀ b, t.stack = .bytes b → b.size = 0 → ownStack mem t = memAt mem t.stackStart) ∧
+    (t.stack = .unreadable → ownStack mem t = memAt mem t.stackStart) := by
+  refine ⟨?_, ?_, ?_⟩
+  · intro b hb hs; simp [ownStack, ownDesc, hb, hs]
+  · intro b hb hs; simp [ownStack, ownDesc, hb, hs]
+  · intro hb; simp [ownStack, ownDesc, hb]
+
+/-- **C14.9 (stack_memory_rule)** the memory handed to `walk_stack` for a thread whose walk starts
+    with stack pointer `sp`:
+    (1) the thread's own stack memory when EIGHT bytes at `sp` lie inside it (the test is
+        `get_memory_at_address::<u64>`, also on 32-bit CPUs);
+    (2) otherwise the region `memory_list.memory_at_address(sp)` returns, when it returns one —
+        possibly the thread's own region again, when `sp` is within its last seven bytes;
+    (3) otherwise the thread's own stack memory after all (possibly none);
+    and without a start context (no frame), the thread's own stack memory. -/
+theorem stack_memory_rule (mem : List Mem) (t : Thread) (sp : Nat) :
+    (hasWord (ownStack mem t) sp = true → selectMem mem t (some sp) = ownStack mem t) ∧
+    (hasWord (ownStack mem t) sp = false → ∀ r, memAt mem sp = some r → selectMem mem t (some sp) = some r) ∧
+    (hasWord (ownStack mem t) sp = false → memAt mem sp = none → selectMem mem t (some sp) = ownStack mem t) ∧
+    selectMem mem t none = ownStack mem t := by
+  refine ⟨?_, ?_, ?_, rfl⟩
+  · intro h; simp [selectMem, h]
+  · intro h r hr; simp [selectMem, h, hr]
+  · intro h hr; simp [selectMem, h, hr]
+
+/-- "holds eight bytes at sp": `base ≤ sp` and `sp + 8 ≤ base + size` -/
+theorem has_word_iff (m : Mem) (sp : Nat) :
+    hasWord (some m) sp = true ↔ m.base ≤ sp ∧ sp + 8 ≤ m.base + m.size :=
+  hasWord_some_iff m sp
+
+/-- the lookup of case (2) is SOUND: the region it returns is a region of the memory list whose own
+    address range `[base, base + size)` contains the stack pointer (C08 `get_sound`) … -/
+theorem stack_memory_lookup_sound (mem : List Mem) (sp : Nat) (r : Mem) (h : memAt mem sp = some r) :
+    r ∈ mem ∧ r.size ≠ 0 ∧ r.base + r.size ≤ U64MAX ∧ r.base ≤ sp ∧ sp < r.base + r.size := by
+  obtain ⟨h1, ⟨h2, h3⟩, h4, h5⟩ := memAt_sound mem sp r h
+  exact ⟨h1, h2, h3, h4, h5⟩
+
+/-- … and COMPLETE for a region whose range meets no other region's range: "if such a region
+    exists" it is the one found (C08 `get_complete`; with overlapping regions the table keeps one
+    of them, which `stack_memory_lookup_sound` still covers). -/
+theorem stack_memory_lookup_complete (pre post : List Mem) (r : Mem) (sp : Nat)
+    (hr : r.size ≠ 0 ∧ r.base + r.size ≤ U64MAX)
+    (hiso : ∀ x ∈ pre ++ post,
+      x.size = 0 ∨ x.base + x.size > U64MAX ∨ x.base + x.size ≤ r.base ∨ r.base + r.size ≤ x.base)
+    (hsp : r.base ≤ sp ∧ sp < r.base + r.size) :
+    memAt (pre ++ r :: post) sp = some r :=
+  memAt_complete pre post r sp hr hiso hsp
+
+/-- so the selected memory, when the thread's own does not hold the stack pointer, contains it or
+    is the thread's own -/
+theorem selected_contains_sp (mem : List Mem) (t : Thread) (sp : Nat) (r : Mem)
+    (h : selectMem mem t (some sp) = some r) :
+    (r.base ≤ sp ∧ sp < r.base + r.size) ∨ ownStack mem t = some r := by
+  unfold selectMem at h
+  simp only at h
+  split at h
+  · exact Or.inr h
+  · split at h
+    · rename_i r' hr'
+      cases h
+      exact Or.inl ⟨(memAt_sound mem sp _ hr').2.2.1, (memAt_sound mem sp _ hr').2.2.2⟩
+    · exact Or.inr h
+
+/-- which memory list is consulted: the memory-64 list when that stream can be read, else the
+    memory list without its unreadable or empty descriptors, else nothing -/
+theorem memory_list_rule (d : Dump) :
+    (∀ rs, d.mem64 = some (some rs) → memoryList d = rs) ∧
+    (d.mem64 = none ∨ d.mem64 = some none → ∀ l, d.memList = some l → memoryList d = memoryOfList l) ∧
+    (d.mem64 = none ∨ d.mem64 = some none → d.memList = none → memoryList d = []) := by
+  refine ⟨?_, ?_, ?_⟩
+  · intro rs h; simp [memoryList, h]
+  · rintro (h | h) l hl <;> simp [memoryList, h, hl]
+  · rintro (h | h) hl <;> simp [memoryList, h, hl]
+
+/-! ## 10. every call stack of the state IS a walk of the walker model -/
+
+/-- **C14.10 (stacks_are_walks)** the frames of the call stack of thread `i` are — frame by frame,
+    before the unloaded-module attribution which leaves them alone — `Walk.walk` (the model of
+    `walk_stack` that C05's and C04's theorems are about) run
+      * from the start context `start_context_rule` names, all registers valid,
+      * on the stack memory `stack_memory_rule` selects for that context's stack pointer (no memory
+        on a CPU whose contexts have no unwinder: PPC, PPC64, SPARC),
+      * in the environment made of the state's loaded modules without symbol files;
+    and a thread without start context (dump-writer thread, unreadable contexts) has no frame. -/
+theorem stacks_are_walks (d : Dump) (ts : List Thread) (s : State)
+    (hth : d.threads = some ts) (h : index d = .state s)
+    (i : Nat) (h1 : i < ts.length) (h2 : i < s.stacks.length) :
+    s.stacks[i].frames.map (·.f) =
+      match startCtx d ts[i] with
+      | some r =>
+        Walk.walk (envOf d (selectMem (memoryList d) ts[i] (some r.sp)))
+          (walkMem d.arch (selectMem (memoryList d) ts[i] (some r.sp))) (toCtx d.arch r)
+      | none => [] := by
+  obtain ⟨-, hat⟩ := stack_at d ts s hth h
+  obtain ⟨-, -, -, hfr, -⟩ := attachStack_core _ _ _ (hat i h1 h2)
+  rw [hfr, stackOf_frames]
+  cases hs : startCtx d ts[i] with
+  | none => rfl
+  | some r => simp [framesOf, stackMemOf, hs]
+
+/-- the walker's architecture and OS class, module list and (absent) symbols of that environment -/
+theorem env_spec (d : Dump) (sel : Option Mem) :
+    (envOf d sel).arch = (unwinderOf d.arch).getD .x86 ∧
+    (envOf d sel).os = walkOs (Os.ofPlatformId d.platformId) ∧
+    envOf d sel = Walk.mkEnv ((unwinderOf d.arch).getD .x86) (walkOs (Os.ofPlatformId d.platformId))
+      { mods := (loadedModules d).map toModule, syms := (loadedModules d).map fun _ => none }
+      ((walkMem d.arch sel).getD { base := 0, bytes := #[] }) :=
+  ⟨rfl, rfl, rfl⟩
+
+/-- **C05 for the process state**: every call stack that has a start context satisfies C05's
+    well-formedness invariant `Walk.WF` (context frame first; later frames with return address
+    ≥ 4096, lookup address = return address − call adjustment, trust cfi / frame pointer / scan,
+    strictly increasing stack pointers with the leaf exception, scanned return addresses read from
+    the selected stack memory just below the frame's stack pointer). -/
+theorem stacks_wf (d : Dump) (ts : List Thread) (s : State)
+    (hth : d.threads = some ts) (h : index d = .state s)
+    (i : Nat) (h1 : i < ts.length) (h2 : i < s.stacks.length) (r : Regs) (hr : startCtx d ts[i] = some r) :
+    Walk.WF ((unwinderOf d.arch).getD .x86)
+      (Walk.usedMem (walkMem d.arch (selectMem (memoryList d) ts[i] (some r.sp))))
+      (toCtx d.arch r) (s.stacks[i].frames.map (·.f)) := by
+  rw [stacks_are_walks d ts s hth h i h1 h2, hr]
+  exact Walk.walk_wf (envOf d (selectMem (memoryList d) ts[i] (some r.sp))) _ _
+
+/-- **C03's frame bound for the process state**: no call stack has more frames than the stack
+    memory selected for it has bytes, plus two (a thread without stack memory: at most two — in
+    fact one). -/
+theorem stacks_frame_bound (d : Dump) (ts : List Thread) (s : State)
+    (hth : d.threads = some ts) (h : index d = .state s)
+    (i : Nat) (h1 : i < ts.length) (h2 : i < s.stacks.length) :
+    s.stacks[i].frames.length ≤
+      ((selectMem (memoryList d) ts[i] ((startCtx d ts[i]).map (·.sp))).map Mem.size).getD 0 + 2 := by
+  have hw := stacks_are_walks d ts s hth h i h1 h2
+  have hl : s.stacks[i].frames.length = (s.stacks[i].frames.map (·.f)).length := by simp
+  rw [hl, hw]
+  cases hs : startCtx d ts[i] with
+  | none => simp
+  | some r =>
+    simp only [Option.map_some]
+    have hb := Walk.walk_bound (envOf d (selectMem (memoryList d) ts[i] (some r.sp)))
+      (walkMem d.arch (selectMem (memoryList d) ts[i] (some r.sp))) (toCtx d.arch r)
+    refine Nat.le_trans hb ?_
+    unfold walkMem
+    split
+    · exact Nat.le_refl _
+    · simp
+
+/-- a thread whose selected memory is absent (or whose CPU has no unwinder) has the context frame only -/
+theorem no_memory_one_frame (d : Dump) (sel : Option Mem) (c : Walk.Ctx) (h : walkMem d.arch sel = none) :
+    (framesOf d sel c).length = 1 := by
+  unfold framesOf
+  rw [h]
+  simp [Walk.walk]
+
+/-- **C05's module cover for the process state**: the loaded module a frame is attributed to
+    (by its position in the state's module list) contains the frame's lookup address -/
+theorem frame_module_sound (d : Dump) (ts : List Thread) (s : State)
+    (hth : d.threads = some ts) (h : index d = .state s)
+    (i : Nat) (h1 : i < ts.length) (h2 : i < s.stacks.length)
+    (x : IFrame) (hx : x ∈ s.stacks[i].frames) (k : Nat) (hk : x.f.module = some k) :
+    ∃ m, s.modules[k]? = some m ∧ m.base ≤ x.f.instruction ∧ x.f.instruction < m.base + m.size := by
+  have hw := stacks_are_walks d ts s hth h i h1 h2
+  have hmem : x.f ∈ s.stacks[i].frames.map (·.f) := List.mem_map.mpr ⟨x, hx, rfl⟩
+  rw [hw] at hmem
+  obtain ⟨-, -, -, -, -, -, hm, -⟩ := index_state_inv d ts s hth h
+  cases hs : startCtx d ts[i] with
+  | none => rw [hs] at hmem; simp at hmem
+  | some r =>
+    rw [hs] at hmem
+    simp only at hmem
+    obtain ⟨hcov, -⟩ := Walk.walk_covered _ _ _ _ _ _ _ hmem
+    obtain ⟨wm, hwm, hlo, hhi⟩ := hcov k hk
+    simp only [worldOf, List.getElem?_map, Option.map_eq_some_iff] at hwm
+    obtain ⟨m, hmk, rfl⟩ := hwm
+    exact ⟨m, by rw [hm]; exact hmk, hlo, hhi⟩
+
+/-! ## 11. the copy rules: fields of the state taken over from one stream -/
+
+/-- **C14.11** what `process_minidump` copies: system info composed by `sysInfo`, the LSB stream
+    folded by `lsbOf`, the macOS crash-info records, the boot-args stream and the handle stream as
+    they were read; `assertion` is ALWAYS `None` (the assertion stream is not consulted) and
+    `cert_info` is empty (it comes from the `evil_json` option, which `process_minidump` does not pass). -/
+theorem copy_rules (d : Dump) (ts : List Thread) (s : State)
+    (hth : d.threads = some ts) (h : index d = .state s) :
+    s.sys = sysInfo d.platformId d.arch d.sys ∧ s.lsb = d.lsb.map lsbOf ∧
+    s.macCrash = macCrashInfo d.macCrash ∧ s.bootArgs = d.bootArgs ∧ s.handles = d.handles ∧
+    s.assertion = none ∧ s.certs = [] := by
+  obtain ⟨-, -, -, -, -, -, -, -, h1, h2, h3, h4, h5, h6, h7, -⟩ := index_state_inv d ts s hth h
+  exact ⟨h1, h2, h3, h4, h7, h5, h6⟩
+
+/-- `system_info.cpu_count` is `number_of_processors`; `os_version` is always present -/
+theorem cpu_count_spec (p a : Nat) (r : SysRaw) : (sysInfo p a r).cpuCount = r.ncpu := rfl
+
+/-- `os_version` / `os_build`: `major.minor.build` and the trimmed, non-empty CSD string — except
+    on Linux with version `0.0.0`, where the second blank-separated piece of the CSD string
+    (`uname -srvmo`) is the version and the pieces after it, without the last one (two, when the
+    last is `Linux/GNU`), are the build; a CSD string whose second piece is missing or `0.0.0`
+    falls back to the first rule. -/
+theorem os_parts_spec (p : Nat) (r : SysRaw) :
+    (Reason.lookup Gen.Enums.PlatformId p ≠ some "Linux" ∨ versionString r ≠ "0.0.0" →
+        osParts p r = (versionString r, csdBuild r)) ∧
+    (Reason.lookup Gen.Enums.PlatformId p = some "Linux" → versionString r = "0.0.0" →
+        osParts p r =
+          (if (linuxBuildPieces ((r.csd.getD "").splitOn " ")).1 = "0.0.0" then (versionString r, csdBuild r)
+           else ((linuxBuildPieces ((r.csd.getD "").splitOn " ")).1,
+                 some (" ".intercalate (linuxBuildPieces ((r.csd.getD "").splitOn " ")).2)))) := by
+  constructor
+  · intro h
+    unfold osParts
+    simp only
+    rw [if_pos h]
+  · intro h1 h2
+    unfold osParts
+    simp only
+    rw [if_neg (by simp [h1, h2])]
+
+/-- the version-string pieces: fewer than two pieces ⇒ `0.0.0`; otherwise the second piece, and of
+    the pieces after it all but the last — all but the last two when the last is `Linux/GNU` -/
+theorem linuxBuildPieces_spec :
+    linuxBuildPieces [] = ("0.0.0", []) ∧ (∀ a, linuxBuildPieces [a] = ("0.0.0", [])) ∧
+    (∀ a v, linuxBuildPieces [a, v] = (v, [])) ∧
+    (∀ a v mid last, last ≠ "Linux/GNU" → linuxBuildPieces (a :: v :: (mid ++ [last])) = (v, mid)) ∧
+    (∀ a v mid, linuxBuildPieces (a :: v :: (mid ++ ["Linux/GNU"])) = (v, mid.dropLast)) := by
+  refine ⟨rfl, fun _ => rfl, fun _ _ => rfl, ?_, ?_⟩
+  · intro a v mid last hl
+    simp [linuxBuildPieces, List.reverse_append, hl]
+  · intro a v mid
+    simp [linuxBuildPieces, List.reverse_append]
+
+/-- `cpu_info`: x86 ⇒ the twelve vendor-id bytes as characters, a blank, and
+    `family L model M stepping S` (model / stepping = high / low byte of `processor_revision`);
+    x86-64 ⇒ the same without vendor id; ARM ⇒ `armCpuInfo`; every other CPU ⇒ none -/
+theorem cpu_info_spec (r : SysRaw) :
+    cpuInfo .x86_64 r = some s!"family {r.level} model {(r.revision / 256) % 256} stepping {r.revision % 256}" ∧
+    cpuInfo .x86 r = some (String.ofList (leChars r.d0 ++ leChars r.d1 ++ leChars r.d2) ++ " " ++
+        s!"family {r.level} model {(r.revision / 256) % 256} stepping {r.revision % 256}") ∧
+    cpuInfo .arm r = some (armCpuInfo r) ∧
+    (∀ c, c ≠ .x86 → c ≠ .x86_64 → c ≠ .arm → cpuInfo c r = none) := by
+  refine ⟨rfl, rfl, rfl, ?_⟩
+  intro c h1 h2 h3
+  cases c <;> first | rfl | contradiction
+
+/-- the key groups of the four LSB fields -/
+def lsbKeys : List (String × String) :=
+  [("DISTRIB_ID", "ID"), ("DISTRIB_RELEASE", "VERSION_ID"), ("DISTRIB_CODENAME", "VERSION_CODENAME"),
+   ("DISTRIB_DESCRIPTION", "PRETTY_NAME")]
+
+theorem lsbStep_id_keep (l : Lsb) (e : String × String) (h : e.1 ≠ "DISTRIB_ID" ∧ e.1 ≠ "ID") :
+    (lsbStep l e).id = l.id := by
+  unfold lsbStep
+  rw [if_neg (by simp [h.1, h.2])]
+  split
+  · rfl
+  · split
+    · rfl
+    · split <;> rfl
+
+theorem lsbFold_id_keep (l : Lsb) (kv : List (String × String))
+    (h : ∀ e ∈ kv, e.1 ≠ "DISTRIB_ID" ∧ e.1 ≠ "ID") : (kv.foldl lsbStep l).id = l.id := by
+  induction kv generalizing l with
+  | nil => rfl
+  | cons e rest ih =>
+    simp only [List.foldl_cons]
+    rw [ih _ (fun x hx => h x (List.mem_cons_of_mem _ hx)), lsbStep_id_keep l e (h e List.mem_cons_self)]
+
+/-- `LinuxStandardBase.id`: the value of the LAST entry keyed `DISTRIB_ID` or `ID` (either
+    spelling overwrites the other); empty when there is none. The other three fields follow the
+    same rule with their own pair of keys (`lsbOf` is one fold of `lsbStep`). -/
+theorem lsb_id_last_wins (pre post : List (String × String)) (k v : String)
+    (hk : k = "DISTRIB_ID" ∨ k = "ID") (hpost : ∀ e ∈ post, e.1 ≠ "DISTRIB_ID" ∧ e.1 ≠ "ID") :
+    (lsbOf (pre ++ (k, v) :: post)).id = v := by
+  unfold lsbOf
+  rw [List.foldl_append, List.foldl_cons, lsbFold_id_keep _ _ hpost]
+  unfold lsbStep
+  rw [if_pos hk]
+
+theorem lsb_id_none (kv : List (String × String)) (h : ∀ e ∈ kv, e.1 ≠ "DISTRIB_ID" ∧ e.1 ≠ "ID") :
+    (lsbOf kv).id = "" :=
+  lsbFold_id_keep {} kv h
+
+/-- the step function, field by field: a key of a group sets that group's field to the value and
+    leaves the other fields alone; any other key changes nothing -/
+theorem lsbStep_spec (l : Lsb) (k v : String) :
+    (k = "DISTRIB_ID" ∨ k = "ID" → lsbStep l (k, v) = { l with id := v }) ∧
+    (k = "DISTRIB_RELEASE" ∨ k = "VERSION_ID" → lsbStep l (k, v) = { l with release := v }) ∧
+    (k = "DISTRIB_CODENAME" ∨ k = "VERSION_CODENAME" → lsbStep l (k, v) = { l with codename := v }) ∧
+    (k = "DISTRIB_DESCRIPTION" ∨ k = "PRETTY_NAME" → lsbStep l (k, v) = { l with description := v }) ∧
+    ((∀ p ∈ lsbKeys, k ≠ p.1 ∧ k ≠ p.2) → lsbStep l (k, v) = l) := by
+  refine ⟨?_, ?_, ?_, ?_, ?_⟩
+  · intro h; unfold lsbStep; rw [if_pos h]
+  · intro h; unfold lsbStep
+    rw [if_neg (by rcases h with rfl | rfl <;> simp), if_pos h]
+  · intro h; unfold lsbStep
+    rw [if_neg (by rcases h with rfl | rfl <;> simp), if_neg (by rcases h with rfl | rfl <;> simp), if_pos h]
+  · intro h; unfold lsbStep
+    rw [if_neg (by rcases h with rfl | rfl <;> simp), if_neg (by rcases h with rfl | rfl <;> simp),
+      if_neg (by rcases h with rfl | rfl <;> simp), if_pos h]
+  · intro h
+    have h1 := h ("DISTRIB_ID", "ID") (by simp [lsbKeys])
+    have h2 := h ("DISTRIB_RELEASE", "VERSION_ID") (by simp [lsbKeys])
+    have h3 := h ("DISTRIB_CODENAME", "VERSION_CODENAME") (by simp [lsbKeys])
+    have h4 := h ("DISTRIB_DESCRIPTION", "PRETTY_NAME") (by simp [lsbKeys])
+    unfold lsbStep
+    rw [if_neg (by simp [h1.1, h1.2]), if_neg (by simp [h2.1, h2.2]), if_neg (by simp [h3.1, h3.2]),
+      if_neg (by simp [h4.1, h4.2])]
+
+/-- `mac_crash_info`: nothing without the stream or when a record's version differs from the first
+    record's; otherwise one entry per record of version ≥ 1, in order: V5 (all fields) for version
+    ≥ 5, V4 (no abort cause) for version 4, V1 (no fields, no strings) for versions 1–3 -/
+theorem mac_crash_spec (rs : List MacRec) :
+    macCrashInfo none = none ∧
+    (macVersionsAgree rs = false → macCrashInfo (some rs) = none) ∧
+    (macVersionsAgree rs = true → macCrashInfo (some rs) = some (rs.filterMap macOut)) ∧
+    (∀ r : MacRec, 5 ≤ r.version →
+        macOut r = some ⟨5, r.version, some r.thread, some r.dialogMode, some r.abortCause, r.strs⟩) ∧
+    (∀ r : MacRec, r.version = 4 → macOut r = some ⟨4, 4, some r.thread, some r.dialogMode, none, r.strs⟩) ∧
+    (∀ r : MacRec, 1 ≤ r.version → r.version ≤ 3 → macOut r = some ⟨1, r.version, none, none, none, []⟩) ∧
+    (∀ r : MacRec, r.version = 0 → macOut r = none) := by
+  refine ⟨rfl, ?_, ?_, ?_, ?_, ?_, ?_⟩
+  · intro h; simp [macCrashInfo, h]
+  · intro h; simp [macCrashInfo, h]
+  · intro r h; simp [macOut, h]
+  · intro r h; simp [macOut, h]
+  · intro r h1 h2
+    have h5 : ¬ r.version ≥ 5 := by omega
+    have h4 : ¬ r.version ≥ 4 := by omega
+    simp [macOut, h5, h4, h1]
+  · intro r h; simp [macOut, h]
+
+/-! ## 12. non-vacuity: concrete instances of the hypotheses, evaluated by the kernel -/
 
 /-- three threads (ids 5, 7, 5), Breakpad says thread 7 wrote the dump, the exception names
     thread 5: both threads with id 5 start from the exception context, the last one is the
     requesting thread, thread 7 is skipped and keeps its name -/
 def exampleDump : Dump :=
   { platformId := 3, arch := 0, timestamp := 42,
-    threads := some [⟨5, some 0x1000⟩, ⟨7, some 0x2000⟩, ⟨5, none⟩],
+    threads := some [⟨5, some ⟨0x1000, 0, 0⟩, 0, .unreadable⟩, ⟨7, some ⟨0x2000, 0, 0⟩, 0, .unreadable⟩,
+                     ⟨5, none, 0, .unreadable⟩],
     names := [(5, some "a"), (7, some "writer"), (5, none), (5, some "b"), (5, none)],
     breakpad := some ⟨3, 7, 5⟩,
-    exc := some (⟨5, 0xc0000005, 0, 0xffffffff80001234, 2, 1, 0xffffffff00000010, 0⟩, some 0x3000),
+    exc := some (⟨5, 0xc0000005, 0, 0xffffffff80001234, 2, 1, 0xffffffff00000010, 0⟩, some ⟨0x3000, 0, 0⟩),
     misc := some ⟨1, 99, 1000⟩, status := some [("Pid", "7")],
-    modules := [⟨0x2f00, 0x200, "m"⟩],
-    unloaded := [⟨0x2000, 0x2000, "u"⟩, ⟨0x3000, 1, "v"⟩, ⟨0x3001, 5, "w"⟩] }
+    modules := [⟨0x2f00, 0x200, some "m"⟩],
+    unloaded := [⟨0x2000, 0x2000, some "u"⟩, ⟨0x3000, 1, some "v"⟩, ⟨0x3001, 5, some "w"⟩] }
 
-def exampleThreads : List Thread := [⟨5, some 0x1000⟩, ⟨7, some 0x2000⟩, ⟨5, none⟩]
+def exampleThreads : List Thread :=
+  [⟨5, some ⟨0x1000, 0, 0⟩, 0, .unreadable⟩, ⟨7, some ⟨0x2000, 0, 0⟩, 0, .unreadable⟩, ⟨5, none, 0, .unreadable⟩]
 
 /-- the hypotheses of the theorems above are inhabited by `exampleDump` … -/
 example : ∃ s, exampleDump.threads = some exampleThreads ∧ index exampleDump = .state s := by
-  obtain ⟨s, hs⟩ := index_total exampleDump exampleThreads rfl
+  obtain ⟨s, hs⟩ := index_total_le exampleDump exampleThreads rfl rfl
   exact ⟨s, rfl, hs⟩
 
 /-- … and this is what they say about it (the sort-free parts evaluated by the kernel) -/
 example :
-    (exampleThreads.map (stackOf exampleDump)).map Stack.core =
-      [(5, some "b", .ok, some 0x3000), (7, some "writer", .dumpThreadSkipped, none), (5, some "b", .ok, some 0x3000)] ∧
+    exampleThreads.map (fun t => ((stackOf exampleDump t).id, (stackOf exampleDump t).name,
+        (stackOf exampleDump t).info, startCtx exampleDump t)) =
+      [(5, some "b", .ok, some ⟨0x3000, 0, 0⟩), (7, some "writer", .dumpThreadSkipped, none),
+       (5, some "b", .ok, some ⟨0x3000, 0, 0⟩)] ∧
     (loop exampleDump 0 exampleThreads none).2 = some 2 ∧
     requestingId exampleDump = some 5 ∧ dumpThreadId exampleDump.breakpad = some 7 ∧
     processId exampleDump = some 99 ∧ createTime exampleDump = none := by decide
 
-example : isDumpThread exampleDump ⟨7, some 0x2000⟩ = true ∧
-    nameOf exampleDump.names 7 = some "writer" ∧ (stackOf exampleDump ⟨7, some 0x2000⟩).name = some "writer" := by decide
+example : isDumpThread exampleDump ⟨7, some ⟨0x2000, 0, 0⟩, 0, .unreadable⟩ = true ∧
+    nameOf exampleDump.names 7 = some "writer" ∧
+    (stackOf exampleDump ⟨7, some ⟨0x2000, 0, 0⟩, 0, .unreadable⟩).name = some "writer" := by decide
 
-example : isRequesting exampleDump ⟨5, none⟩ = true ∧ isRequesting exampleDump ⟨7, some 0x2000⟩ = false ∧
-    excCtx exampleDump = some 0x3000 := by decide
+example : isRequesting exampleDump ⟨5, none, 0, .unreadable⟩ = true ∧
+    isRequesting exampleDump ⟨7, some ⟨0x2000, 0, 0⟩, 0, .unreadable⟩ = false ∧
+    excCtx exampleDump = some ⟨0x3000, 0, 0⟩ := by decide
 
 /-- the frame at 0x3000 is covered by the unloaded modules `u` (offset 0x1000) and `v` (offset 0),
     not by `w` -/
-example : ∃ l, offsetsAt exampleDump.unloaded 0x3000 = some l ∧
+example : ∃ l, offsetsAt (unloadedModules exampleDump) 0x3000 = some l ∧
     ("u", 0x1000) ∈ l ∧ ("v", 0) ∈ l ∧ ∀ off, ("w", off) ∉ l := by
-  obtain ⟨l, hl, hspec⟩ := offsetsAt_spec exampleDump.unloaded 0x3000
+  have hum : unloadedModules exampleDump = [⟨0x2000, 0x2000, "u"⟩, ⟨0x3000, 1, "v"⟩, ⟨0x3001, 5, "w"⟩] := by decide
+  rw [hum]
+  obtain ⟨l, hl, hspec⟩ := offsetsAt_spec [⟨0x2000, 0x2000, "u"⟩, ⟨0x3000, 1, "v"⟩, ⟨0x3001, 5, "w"⟩] 0x3000
   refine ⟨l, hl, ?_, ?_, ?_⟩
   · exact (hspec _ _).mpr ⟨⟨0x2000, 0x2000, "u"⟩, by decide, by decide, rfl, by decide⟩
   · exact (hspec _ _).mpr ⟨⟨0x3000, 1, "v"⟩, by decide, by decide, rfl, by decide⟩
   · intro off hmem
     obtain ⟨m, hm, hc, hn, -⟩ := (hspec _ _).mp hmem
-    simp only [exampleDump, List.mem_cons, List.mem_nil_iff, or_false] at hm
+    simp only [List.mem_cons, List.mem_nil_iff, or_false] at hm
     rcases hm with rfl | rfl | rfl
     · exact absurd hn (by decide)
     · exact absurd hn (by decide)
@@ -831,15 +1213,77 @@ example : statusPid ([] ++ ("Pid", "4294967296") :: []) = 0 := by
   rw [statusPid_spec _ _ _ (by decide)]; decide
 
 /-- `requesting_never_dump_thread`'s hypothesis is inhabited: position 2 of `exampleDump` -/
-example : (loop exampleDump 0 exampleThreads none).2 = some 2 ∧ isDumpThread exampleDump ⟨5, none⟩ = false := by decide
+example : (loop exampleDump 0 exampleThreads none).2 = some 2 ∧
+    isDumpThread exampleDump ⟨5, none, 0, .unreadable⟩ = false := by decide
 
-/-- a frame inside a loaded module (hypothesis of `inLoadedModule_sound` and of the first clause
-    of `unloaded_offsets`) -/
-example : inLoadedModule [⟨0x2f00, 0x200, "m"⟩] 0x3000 = some true := by
-  simp [inLoadedModule, RangeMap.safe, RangeMap.tryFromIter, RangeMap.safeVec, RangeMap.sortOpt,
-    RangeMap.sortEntries, RangeMap.validOnly, RangeMap.pass, RangeMap.keep, RangeMap.disc,
-    RangeMap.mkRange, U64MAX, List.zipIdx]
-  decide
+/-- a module list with an unreadable name is dropped as a whole; impossible sizes go first -/
+example : loadedModules { exampleDump with modules := [⟨1, 0, none⟩, ⟨0x2f00, 0x200, some "m"⟩] } = [⟨0x2f00, 0x200, "m"⟩] ∧
+    loadedModules { exampleDump with modules := [⟨1, 5, none⟩, ⟨0x2f00, 0x200, some "m"⟩] } = [] := by decide
+
+/-! ### stack-memory selection and walks: an amd64 Linux dump -/
+
+/-- region A = [0x10000, +0x40): a frame-pointer record at 0x10010 (saved rbp 0x10030, return
+    address 0x400310); region B = [0x20000, +0x40) with a return address at 0x20008 -/
+def regionA : Mem :=
+  { base := 0x10000, bytes := #[0,0,0,0,0,0,0,0, 0,0,0,0,0,0,0,0,
+                                 0x30,0,1,0,0,0,0,0, 0x10,3,0x40,0,0,0,0,0,
+                                 0,0,0,0,0,0,0,0, 0,0,0,0,0,0,0,0,
+                                 0,0,0,0,0,0,0,0, 0,0,0,0,0,0,0,0] }
+def regionB : Mem :=
+  { base := 0x20000, bytes := #[0,0,0,0,0,0,0,0, 0x20,3,0x40,0,0,0,0,0,
+                                 0,0,0,0,0,0,0,0, 0,0,0,0,0,0,0,0,
+                                 0,0,0,0,0,0,0,0, 0,0,0,0,0,0,0,0,
+                                 0,0,0,0,0,0,0,0, 0,0,0,0,0,0,0,0] }
+
+/-- thread 1 owns region A; its own context has sp in A, the exception context has sp in B -/
+def walkThread : Thread := ⟨1, some ⟨0x400100, 0x10008, 0x10010⟩, 0x10000, .bytes regionA.bytes⟩
+
+def walkDump : Dump :=
+  { platformId := 0x8201, arch := 9, timestamp := 1,
+    threads := some [walkThread], names := [], breakpad := none,
+    exc := some (⟨1, 11, 1, 0x1234, 0, 0, 0, 0⟩, some ⟨0x400200, 0x20000, 0⟩),
+    misc := none, status := none,
+    modules := [⟨0x400000, 0x1000, some "mod"⟩], unloaded := [],
+    memList := some [⟨0x10000, some regionA.bytes⟩, ⟨0x20000, some regionB.bytes⟩] }
+
+/-- `stack_memory_rule` (1): the thread's own memory holds eight bytes at its own sp … -/
+example : hasWord (ownStack [regionA, regionB] walkThread) 0x10008 = true := by decide
+/-- … `has_word_iff` at the boundary: 0x10038 is the last address with eight bytes, 0x10039 is not -/
+example : hasWord (some regionA) 0x10038 = true ∧ hasWord (some regionA) 0x10039 = false := by decide
+/-- (2)/(3): the exception context's sp 0x20000 is not in A (`hasWord … = false`), region B is
+    isolated and contains it (`stack_memory_lookup_complete` applies), so B is selected -/
+example : hasWord (ownStack [regionA, regionB] walkThread) 0x20000 = false := by decide
+example : memAt ([regionA] ++ regionB :: []) 0x20000 = some regionB :=
+  stack_memory_lookup_complete [regionA] [] regionB 0x20000 (by decide)
+    (by intro x hx; simp at hx; subst hx; right; right; left; decide) (by decide)
+
+/-- `stacks_are_walks` / `stacks_wf` / `stacks_frame_bound` have inhabited hypotheses: the dump is
+    processed, thread 0 is the requesting thread and starts from the exception context -/
+example : ∃ s, walkDump.threads = some [walkThread] ∧ index walkDump = .state s ∧
+    startCtx walkDump walkThread = some ⟨0x400200, 0x20000, 0⟩ := by
+  obtain ⟨s, hs⟩ := index_total_le walkDump [walkThread] rfl rfl
+  exact ⟨s, rfl, hs, by decide⟩
+
+/-- … and `stack_memory_rule` (2) gives region B for that thread's walk -/
+example : selectMem [regionA, regionB] walkThread (some 0x20000) = some regionB :=
+  (stack_memory_rule [regionA, regionB] walkThread 0x20000).2.1 (by decide) regionB
+    (stack_memory_lookup_complete [regionA] [] regionB 0x20000 (by decide)
+      (by intro x hx; simp at hx; subst hx; right; right; left; decide) (by decide))
+
+/-- copy rules: Windows keeps version and service pack (`os_parts_spec`, first rule), Linux 0.0.0
+    takes the `uname` text apart (`linuxBuildPieces_spec`) -/
+example (r : SysRaw) : osParts 2 r = (versionString r, csdBuild r) :=
+  (os_parts_spec 2 r).1 (Or.inl (by decide))
+example : linuxBuildPieces ["Linux", "5.4.0-42", "#46-Ubuntu", "SMP", "x86_64", "Linux/GNU"] =
+    ("5.4.0-42", ["#46-Ubuntu", "SMP"]) :=
+  linuxBuildPieces_spec.2.2.2.2 "Linux" "5.4.0-42" ["#46-Ubuntu", "SMP", "x86_64"]
+example : Reason.lookup Gen.Enums.PlatformId 0x8201 = some "Linux" := by decide
+example : (lsbOf [("DISTRIB_ID", "Ubuntu"), ("FOO", "x"), ("ID", "ubuntu"), ("VERSION_ID", "20.04")]).id = "ubuntu" :=
+  lsb_id_last_wins [("DISTRIB_ID", "Ubuntu"), ("FOO", "x")] [("VERSION_ID", "20.04")] "ID" "ubuntu" (Or.inr rfl)
+    (by decide)
+example : macCrashInfo (some [⟨5, 1, 2, 3, ["a", "b", "c", "d", "e"]⟩, ⟨4, 0, 0, 0, []⟩]) = none ∧
+    macCrashInfo (some [⟨4, 1, 2, 3, ["a"]⟩, ⟨4, 0, 0, 0, []⟩]) =
+      some [⟨4, 4, some 1, some 2, none, ["a"]⟩, ⟨4, 4, some 0, some 0, none, []⟩] := by decide
 
 end MdModel.Index
 namespace MdModel.Reason
